@@ -51,7 +51,7 @@ func (r *Report) PositiveLint(key string) {
 		return
 	}
 	hits, ranges, _ := w.DeterminismLint([]*ssa.Function{root})
-	want := []string{"call time.Now", "call math/rand.Intn", "call os.Getenv", "go statement", "select statement", "floating-point arithmetic", "conversion to floating point", "write to package variable", "write through a reference held in Keeper.c", "unstable sort sort.Slice"}
+	want := []string{"call time.Now", "call math/rand.Intn", "call os.Getenv", "go statement", "select statement", "floating-point arithmetic", "conversion to floating point", "write to package variable", "write through a reference held in Keeper.c", "unstable sort sort.Slice", "comparison of a value with itself", "cache context shared by the iterations of a loop"}
 	for _, wnt := range want {
 		ok := false
 		for _, h := range hits {
